@@ -545,9 +545,73 @@ class Inliner:
                     return new
                 except _Bail as ex:
                     self.skipped.append((g.qual, str(ex)))
+        # a statement-helper called somewhere inside a simple statement (x += helper(..),
+        # f(helper(..)), if helper(..) > 0: ...): hoist it into `_rN = helper(..)` in front
+        hoisted = self._hoist(fctx, st, stack, caller_names)
+        if hoisted is not None:
+            return hoisted
         # expression substitution anywhere inside this statement's own expressions
         self._subst_exprs(fctx, st, ost, stack)
         return [st]
+
+    def _hoist(self, fctx, st, stack, caller_names) -> Optional[list[ast.stmt]]:
+        # deliberately narrow: `x op= helper(..)` and `if helper(..) <cmp> ..:` only - hoisting out of
+        # arbitrary expressions would rewrite literals (dict displays, call arguments) that rules read
+        if not isinstance(st, (ast.AugAssign, ast.If)):
+            return None
+        roots = []
+        if isinstance(st, ast.If):
+            if isinstance(st.test, ast.Compare) and isinstance(st.test.left, ast.Call):
+                roots = [("test", st.test)]
+            else:
+                return None
+        elif isinstance(st.value, ast.Call):
+            roots = [("value", st.value)]
+        else:
+            return None
+        found = None
+
+        def search(par, fld, idx, node):
+            nonlocal found
+            if found is not None or isinstance(node, (ast.Lambda, ast.ListComp, ast.SetComp, ast.DictComp, ast.GeneratorExp, ast.IfExp, ast.BoolOp)):
+                return  # conditionally / repeatedly evaluated positions are not hoisted
+            if isinstance(node, ast.Call):
+                src = getattr(node, "_src", None)
+                if src is not None and getattr(src, "_parent", None) is not None:
+                    g = self._callee(fctx, src, stack)
+                    if g is not None and not self._is_expr_function(g):
+                        found = (par, fld, idx, node, src, g)
+                        return
+            for f2, v2 in ast.iter_fields(node):
+                if isinstance(v2, ast.AST):
+                    search(node, f2, None, v2)
+                elif isinstance(v2, list):
+                    for i, x in enumerate(v2):
+                        if isinstance(x, ast.AST):
+                            search(node, f2, i, x)
+
+        for fld, r in roots:
+            search(st, fld, None, r)
+        if found is None:
+            return None
+        par, fld, idx, node, src, g = found
+        if not (par is st or (isinstance(st, ast.If) and par is st.test and fld == "left")):
+            return None
+        self.counter += 1
+        tmp = f"_r{self.counter}"
+        asg = ast.copy_location(ast.Assign(targets=[ast.Name(id=tmp, ctx=ast.Store())], value=node), st)
+        oasg = ast.copy_location(ast.Assign(targets=[ast.Name(id=tmp, ctx=ast.Store())], value=src), st)
+        before = len(self.inlined)
+        pre = self._stmt(fctx, asg, oasg, stack, caller_names)
+        if len(self.inlined) == before:
+            return None  # could not be spliced: leave the statement as it is
+        ref = ast.copy_location(ast.Name(id=tmp, ctx=ast.Load()), node)
+        if idx is None:
+            setattr(par, fld, ref)
+        else:
+            getattr(par, fld)[idx] = ref
+        rest = self._hoist(fctx, st, stack, caller_names)
+        return pre + (rest if rest is not None else [st])
 
     def _subst_exprs(self, fctx, st, ost, stack) -> None:
         # pair up clone/original expression nodes of this statement (not of nested blocks)
